@@ -70,17 +70,19 @@ class State:
     def __init__(self, L, Dd):
         self.L = copy.deepcopy(L)
         self.D = copy.deepcopy(Dd)
-        self.names = {'l': copy.deepcopy(L), 'd': copy.deepcopy(Dd)}
+        self.V = [[D(1)]]
+        self.names = {'l': copy.deepcopy(L), 'd': copy.deepcopy(Dd), 'v': copy.deepcopy(self.V)}
 
     def clone(self):
         s = State.__new__(State)
         s.L = copy.deepcopy(self.L)
         s.D = copy.deepcopy(self.D)
         s.names = copy.deepcopy(self.names)
+        s.V = copy.deepcopy(self.V)
         return s
 
 
-def model_step(op, L, Dd):
+def model_step(op, L, Dd, V=None):
     """apply op to the model in place -> (src, exp, experr, flags); exp 'SKIP' = value not compared"""
     name = op[0]
     exp, experr, src = None, None, None
@@ -216,6 +218,18 @@ def model_step(op, L, Dd):
         k = op[1]
         src = f'd.remove({lit(k)})'
         Dd.pop(k, None)
+    elif name == 'nestw':
+        # d[k] = v (v = [[1, ...]] lives in names), then v is mutated through its own name, then d[k] is read
+        k = op[1]
+        src = f'd[{lit(k)}] = v\nv[0].push(7)\nd[{lit(k)}]'
+        Dd[dkey(k)] = copy.deepcopy(V)
+        V[0].append(D(7))
+        exp = copy.deepcopy(Dd[dkey(k)])
+    elif name == 'nestl':
+        src = 'l.push(0)\nl[0 - 1] = v\nv[0].push(7)\nl[0 - 1]'
+        L.append(copy.deepcopy(V))
+        V[0].append(D(7))
+        exp = copy.deepcopy(L[-1])
     elif name == 'dictlit':
         k, v = op[1], op[2]
         src = f'd = {{{lit(k)}: {lit(v)}, "zz": 0}}'
@@ -249,7 +263,7 @@ def do_step(st, op):
     """apply one operation to implementation and model; -> (failure message or None, src, boundary)"""
     from smartquery import ParserError
     L0, D0 = copy.deepcopy(st.L), copy.deepcopy(st.D)
-    src, exp, experr, boundary = model_step(op, st.L, st.D)
+    src, exp, experr, boundary = model_step(op, st.L, st.D, st.V)
     got, goterr = None, None
     try:
         got = parser().eval(src, st.names)
@@ -294,7 +308,7 @@ ALPHABET = (
      ('readd', 'a'), ('readd', D(1)), ('readd', '1'), ('readd', D('1.0')), ('readd', True), ('readd', 'None'),
      ('deld', 'a'), ('deld', D(1)), ('deld', D('1.0')), ('get', D(1)), ('getd', 'zz', D(2)), ('get', True),
      ('keys',), ('values',), ('items',), ('lend',), ('cwrited', 'a'), ('cwrited', D(1)), ('ind', 'a'), ('ind', '1'),
-     ('removed', '1'), ('dictlit', D(1), D(5)), ('dictlit', D('1.0'), D(6))]
+     ('removed', '1'), ('dictlit', D(1), D(5)), ('dictlit', D('1.0'), D(6)), ('nestw', 'n'), ('nestl',)]
 )
 INITS = [([], {}), ([D(1), 'x'], {'a': D(1), '1': D(2)})]
 
@@ -468,6 +482,14 @@ class ContainerMachine(RuleBasedStateMachine):
     @rule(k=hst.sampled_from([k for k in KEYS if isinstance(k, str)]))
     def removed(self, k):
         self.step(('removed', k))
+
+    @rule(k=hst.sampled_from(['n', 'a', D(1)]))
+    def nestw(self, k):
+        self.step(('nestw', k))
+
+    @rule()
+    def nestl(self):
+        self.step(('nestl',))
 
     @rule(k=hst.sampled_from(KEYS), v=hst.sampled_from(SVALS))
     def dictlit(self, k, v):
